@@ -20,21 +20,22 @@ import (
 // Directives are encoded in the first label of the query name, separated
 // by '-': e.g. "ok-n5-ttl30-d20-u7f3a.udp.test."
 type Directives struct {
-	Kind   string // ok | nx | empty | rc | tc | silent | garbage | close | rst | half | http
-	RCode  int    // for rc<N>
-	HTTP   int    // for http<code>
-	Delay  int    // d<ms>
-	N      int    // n<k>: number of extra records (default 2)
-	Big    int    // big<N>: pad the answer to about N bytes
-	Exact  int    // exact<N>: pad the answer so that its compressed wire form has exactly N octets (N >= 600)
-	TTL    uint32 // ttl<N> (default 300)
-	MixTTL bool   // ttlm: record i gets TTL+i
-	Opt    bool   // opt: reply carries an OPT with options
-	NsTTL  int64  // nsttl<N>: TTL of the authority and additional records (-1 = same rule as the answers)
-	Pad    int    // pad<N>: one extra TXT answer with exactly N octets of text (N <= 255): response sizes in 1-byte steps
-	AA, AD bool   // aa / ad: the reply has the AA / AD flag set (an authoritative / validating upstream)
-	Fin    bool   // fin: stream transports close the connection right after the reply has been written
-	Deep   int    // deep<N>: a CNAME chain of nested names followed by N A records owned by a long label under the
+	Kind              string // ok | nx | empty | rc | tc | silent | garbage | close | rst | half | http
+	RCode             int    // for rc<N>
+	HTTP              int    // for http<code>
+	Delay             int    // d<ms>
+	N                 int    // n<k>: number of extra records (default 2)
+	Big               int    // big<N>: pad the answer to about N bytes
+	ExactUncompressed bool   // uexact<N>: like exact<N>, measured on the uncompressed wire form
+	Exact             int    // exact<N>: pad the answer so that its compressed wire form has exactly N octets (N >= 600)
+	TTL               uint32 // ttl<N> (default 300)
+	MixTTL            bool   // ttlm: record i gets TTL+i
+	Opt               bool   // opt: reply carries an OPT with options
+	NsTTL             int64  // nsttl<N>: TTL of the authority and additional records (-1 = same rule as the answers)
+	Pad               int    // pad<N>: one extra TXT answer with exactly N octets of text (N <= 255): response sizes in 1-byte steps
+	AA, AD            bool   // aa / ad: the reply has the AA / AD flag set (an authoritative / validating upstream)
+	Fin               bool   // fin: stream transports close the connection right after the reply has been written
+	Deep              int    // deep<N>: a CNAME chain of nested names followed by N A records owned by a long label under the
 	// deepest name: compresses to ~16 bytes per record with full name compression, but to ~80 bytes per
 	// record for an encoder that bounds the depth of compression pointer chains
 }
@@ -77,6 +78,8 @@ func ParseDirectives(firstLabel string) Directives {
 			d.Kind, d.RCode = "rc", n&0xF
 		} else if n, ok := num("http"); ok {
 			d.Kind, d.HTTP = "http", n
+		} else if n, ok := num("uexact"); ok {
+			d.Exact, d.ExactUncompressed = n, true
 		} else if n, ok := num("exact"); ok {
 			d.Exact = n
 		} else if n, ok := num("big"); ok {
@@ -308,7 +311,7 @@ func BuildReply(name string, qtype, qclass uint16, tag string, serial uint32, d 
 	if d.Exact >= 600 {
 		wireLen := func() int {
 			c := m.Compress
-			m.Compress = true
+			m.Compress = !d.ExactUncompressed
 			b, err := m.Pack()
 			m.Compress = c
 			if err != nil {
@@ -334,12 +337,16 @@ func BuildReply(name string, qtype, qclass uint16, tag string, serial uint32, d 
 			if rem == 0 {
 				break
 			}
-			if rem < 14 { // too little room for one more record: shorten the last filler
+			ovh := 13 // owner name as a pointer (2) + type/class/ttl/rdlength (10) + the text's length octet (1)
+			if d.ExactUncompressed {
+				ovh = 11 + len(name) + 1
+			}
+			if rem < ovh+1 { // too little room for one more record: shorten the last filler
 				last := m.Answer[len(m.Answer)-1].(*dns.TXT)
-				last.Txt[0] = last.Txt[0][:len(last.Txt[0])-(14-rem)-3]
+				last.Txt[0] = last.Txt[0][:len(last.Txt[0])-(ovh+1-rem)-3]
 				continue
 			}
-			m.Answer = append(m.Answer, filler(min(rem-13, 250)))
+			m.Answer = append(m.Answer, filler(min(rem-ovh, 250)))
 		}
 	}
 	return m
